@@ -216,13 +216,16 @@ impl<D> Serialize for DicomJson<&'_ InMemElement<D>> {
 
         match self.0.value() {
             DicomValue::Sequence(seq) => {
-                serializer.serialize_entry("Value", &DicomJson(seq.items()))?;
+                // a sequence of zero items is an empty value: no "Value"
+                if !seq.items().is_empty() {
+                    serializer.serialize_entry("Value", &DicomJson(seq.items()))?;
+                }
             }
             DicomValue::PixelSequence(_seq) => {
                 //serializer.serialize_entry("Value", &DicomJson(seq))?;
             }
-            DicomValue::Primitive(PrimitiveValue::Empty) => {
-                // no-op
+            DicomValue::Primitive(v) if v.multiplicity() == 0 => {
+                // no-op: an empty value has neither "Value" nor "InlineBinary"
             }
             DicomValue::Primitive(v) => match vr {
                 VR::AT => match v {
@@ -268,7 +271,9 @@ impl<D> Serialize for DicomJson<&'_ InMemElement<D>> {
                     serializer.serialize_entry("Value", &AsNumbers::from(v))?;
                 }
                 VR::OB | VR::OD | VR::OF | VR::OL | VR::OV | VR::OW | VR::UN => {
-                    serializer.serialize_entry("InlineBinary", &InlineBinary::from(v))?;
+                    if !v.to_bytes().is_empty() {
+                        serializer.serialize_entry("InlineBinary", &InlineBinary::from(v))?;
+                    }
                 }
                 VR::SQ => unreachable!("unexpected VR SQ in primitive value"),
             },
